@@ -1,9 +1,10 @@
 (* Correspondence runner for C42: the state of a real memory just before vacuum (frame table with
    windows, file bytes from the data start to the footer offset, handle fields) through the model;
    compared with the table, the payload bytes, the data end and the pending log records the
-   implementation shows afterwards.  `ix` = the bytes the implementation's index rebuild left at
-   [cached_payload_end, end of the last payload) -- empty unless the rewritten payloads overflow the
-   old payload region (known finding F-C42-1). *)
+   implementation shows afterwards.  The payload bytes are compared exactly on their first 4096 bytes
+   and through (length, byte sum, position-weighted byte sum mod 4294967291) as a whole -- the literal
+   of a 70 KB region costs coqc more than the whole model run.  `ix` = a stand-in for the index image
+   (the model writes it after the last payload; it is not part of what is compared). *)
 From MV Require Import Base.Prelude Model.Vacuum.
 Local Open Scope N_scope.
 
@@ -14,8 +15,15 @@ Definition hexcat (l : list bytes) : bytes := concat l.
 Definition C42_row := (N * N * N * N * N * N * bool)%type.
 (* start, rows, region, (data_end, cpe, footer), (lex, vec, pending), ix, mode (0 vacuum / 1 doctor / 2 doctor + index rebuild) *)
 Definition C42_in := (N * list C42_row * bytes * (N * N * N) * (bool * bool * N) * bytes * N)%type.
-(* rows (id, status, off, len), payload bytes [start, end of last payload), data_end (0 for doctor), pending, verify *)
-Definition C42_out := outcome (list (N * N * N * N) * bytes * N * N * bool)%type.
+(* digest of a byte string: first 4096 bytes, length, sum of bytes, sum of (i+1) * byte_i, both mod 4294967291 *)
+Definition DIGEST_MOD : N := 4294967291.
+Definition digest (b : bytes) : bytes * N * N * N :=
+  let '(n, s1, s2) := fold_left (fun acc x => let '(i, a, w) := acc in
+                                    (i + 1, (a + x) mod DIGEST_MOD, (w + (i + 1) * x) mod DIGEST_MOD)) b (0, 0, 0) in
+  (firstn 4096 b, n, s1, s2).
+(* rows (id, status, off, len), digest of the payload bytes [start, end of last payload), data_end and
+   cached_payload_end (0 for doctor), pending, verify *)
+Definition C42_out := outcome (list (N * N * N * N) * (bytes * N * N * N) * (N * N) * N * bool)%type.
 
 Definition row_frame (r : C42_row) : vframe :=
   let '(id, st, off, len, role, meta, txt) := r in mkVF id st off len role meta txt.
@@ -29,8 +37,8 @@ Definition C42_run (i : C42_in) : C42_out :=
   | Ok s =>
       let pend := payload_region_end (vs_start s) (vs_frames s) in
       Ok (map (fun f => (vf_id f, vf_status f, vf_off f, vf_len f)) (vs_frames s),
-          firstn (N.to_nat (pend - vs_start s)) (vs_region s),
-          (if mode =? 0 then vs_data_end s else 0), vs_pending s, verify_passed s)
+          digest (firstn (N.to_nat (pend - vs_start s)) (vs_region s)),
+          (if mode =? 0 then (vs_data_end s, vs_cpe s) else (0, 0)), vs_pending s, verify_passed s)
   | Err k => Err k
   | Panic p => Panic p
   end.
